@@ -26,11 +26,12 @@ def _check_views(cx, name, obj, P, W):
     cx.eq(name + '.ctrlptsw', [list(p) for p in obj.ctrlptsw], [[x * w for x in p] + [w] for p, w in zip(P, W)])
 
 
-def h_setters(cx, sp, seq):
+def h_setters(cx, sp, seq, check_each=True):
     obj, info = shapes.build(cx, sp)
     P, W = [list(p) for p in info['P']], list(info['W'])
     n = _n(obj)
-    _check_views(cx, 'initial', obj, P, W)
+    if check_each:
+        _check_views(cx, 'initial', obj, P, W)
     for i, op in enumerate(seq):
         if op == 'ctrlpts':
             Q = cx.points('Q%d_' % i, n, sp['dim'])
@@ -52,7 +53,8 @@ def h_setters(cx, sp, seq):
             P, W = [list(q) for q in Q], list(V)
         elif op == 'read':
             pass
-        _check_views(cx, 'after%d_%s' % (i, op), obj, P, W)
+        if check_each or i == len(seq) - 1:
+            _check_views(cx, 'after%d_%s' % (i, op), obj, P, W)
     # round trips through the views
     obj.ctrlptsw = [list(p) for p in obj.ctrlptsw]
     _check_views(cx, 'roundtrip_ctrlptsw', obj, P, W)
@@ -145,6 +147,20 @@ def h_convert(cx, sp):
     cx.eq('back.sizes', shapes.sizes(back), shapes.sizes(obj))
 
 
+def h_to_bspline_rational(cx, sp):
+    """nurbs_to_bspline on a rational shape: whatever it returns must evaluate like the input
+    (weights are either exactly 1 or differ from 1 by more than 1e-3)"""
+    conv = geo.M('convert')
+    obj, info = shapes.build(cx, sp)
+    for w in info['W']:
+        cx.assume(cx.any_of([w == 1, w - 1 > F(1, 1000), 1 - w > F(1, 1000)]))
+    ref = shapes.clone(obj)
+    res = conv.nurbs_to_bspline(obj)
+    prm = shapes.sym_params(cx, ref)
+    cx.eq('point', shapes.evaluate(res, prm), shapes.evaluate(ref, prm))
+    cx.eq('input_unchanged', shapes.net(obj), shapes.net(ref))
+
+
 def h_scale_weights(cx, sp):
     obj, info = shapes.build(cx, sp)
     ref = shapes.clone(obj)
@@ -170,6 +186,10 @@ def instances(tier):
                 continue
             out.append(inst('%s setters %s' % (spec_name(sp), '>'.join(seq)), h_setters, timeout=600, sp=sp, seq=seq))
         out.append(inst('%s scale_weights' % spec_name(sp), h_scale_weights, timeout=900, sp=sp))
+        out.append(inst('%s nurbs_to_bspline' % spec_name(sp), h_to_bspline_rational, timeout=900, sp=sp))
+        for seq in [('ctrlptsw', 'ctrlpts'), ('set_ctrlpts', 'ctrlpts'), ('set_ctrlpts', 'weights'), ('ctrlptsw', 'weights', 'ctrlpts'), ('weights', 'ctrlpts'),
+                    ('ctrlpts', 'weights'), ('ctrlptsw', 'ctrlptsw', 'ctrlpts'), ('ctrlpts', 'ctrlpts'), ('weights', 'weights', 'ctrlpts')]:
+            out.append(inst('%s setters-noreads %s' % (spec_name(sp), '>'.join(seq)), h_setters, timeout=600, sp=sp, seq=seq, check_each=False))
     for n, dim, su in ((4, 2, None), (6, 3, 2), (6, 3, 3), (5, 1, None)):
         out.append(inst('helpers n%d dim%d su%s' % (n, dim, su), h_helpers, n=n, dim=dim, su=su))
     grids = [(1, 2), (2, 1), (2, 3), (3, 2)] + ([] if quick else [(4, 3), (2, 4), (1, 1)])
